@@ -80,6 +80,7 @@ def r1_tag(ck, F):
     _register_tag_adts(F)
     nstores = 0
     ncons = 0
+    nguards = [0]
     for b in F.user_bodies():
         cur, tag = [], []
         for site, st in b.sites():
@@ -130,12 +131,31 @@ def r1_tag(ck, F):
                     sv = a.a[0]
                     ok_c = sv.ident() == tv.ident()
             ck.ob(R, f"tag-is-load-offset/{b.path}", ok_c, f"tag := {tv.show()[:100]} ; block loaded after seek to {sv.show()[:100] if sv else '?'}", b, t[0])
+            # (d) when the reload is conditional on the tag, it happens exactly when the tag differs from the
+            #     offset about to be visited: the cached block is used as is only if it IS that block
+            for csite, cst in b.sites():
+                if csite.i is None or cst["s"] != "assign" or cst["rv"]["rv"] != "bin" or cst["rv"]["op"] not in ("Eq", "Ne"):
+                    continue
+                ce = b._expr_of_def((csite, "assign", cst["rv"]))
+                x, y = ce.a
+                tx, ty_ = tuple_elem(x), tuple_elem(y)
+                if ty_ is not None and ty_ == (base, 0):
+                    x, y, tx = y, x, ty_
+                if tx != (base, 0) or not b.dominates(csite, site):
+                    continue
+                ed = bool_edges(b, value_site=csite)
+                if ed is not None and cst["rv"]["op"] == "Eq":
+                    ed = (ed[0], ed[2], ed[1])
+                ok_d = ed is not None and sv is not None and y.ident() == sv.ident() and b.dominates(ed[1], site.bb) and not b.dominates(ed[2], site.bb)
+                ck.ob(R, f"reload-iff-tag-differs/{b.path}", ok_d, f"`tag {BINCMP.get(cst['rv']['op'], cst['rv']['op'])} {y.show()[:60]}` guards the reload: the block is loaded on the tag-differs edge only, and what the tag is compared with is the offset that is then loaded ({sv.show()[:60] if sv else '?'})", b, csite)
+                nguards[0] += 1
         for site, base, st in tag:
             mates = [c for c in cur if c[1] == base]
             ok_b = any(b.dominates(c[0], site) for c in mates)
             ck.ob(R, f"cursor-store-precedes-tag/{b.path}", ok_b, "the offset tag is only updated after the block it describes has been stored (a failed load cannot leave a new tag over an old block)", b, site)
     ck.floor(R, "stores replacing a cached index block", nstores, 2, F.config)
     ck.floor(R, "(tag, cursor) construction sites", ncons, 1, F.config)
+    ck.ob(R, "reload-guards-seen", True, f"{nguards[0]} tag comparison(s) guard a reload (an unconditional reload is also coherent; its cost is C16's concern)", config=F.config, nontrivial=False)
 
 
 def _postdominates_all_exits(b, t, c):
